@@ -4,6 +4,7 @@ import WrglModel.Model.BlockIndexCodec
 import WrglModel.Spec.TableInv
 import WrglModel.Model.Encoding
 import WrglModel.Model.Time
+import WrglModel.Model.ObjStore
 import WrglModel.Gen.Facts
 open Lean
 namespace Wrgl.Drv
@@ -54,6 +55,52 @@ def prefixOf (kind : String) : Bytes :=
     | _ => "?")
 
 def implVal (impl : Json) : Json := fldD impl "val" Json.null
+
+def objKindOf (s : String) : Except String ObjKind :=
+  match s with
+  | "block" => .ok .block
+  | "blockindex" => .ok .blockIndex
+  | "table" => .ok .table
+  | "tableindex" => .ok .tableIndex
+  | "commit" => .ok .commit
+  | "profile" => .ok .tableProfile
+  | k => .error s!"unknown object kind {k}"
+
+/-- one operation of a store history: the model operation and whether its content is a well-formed object -/
+structure HistOp where
+  op : StoreOp
+  valid : Bool
+  content : Bytes
+
+def histOpOf (j : Json) : Except String HistOp := do
+  let kind ← objKindOf (← strFld j "kind")
+  let sum ← asBytes (fldD j "sum" (Json.str ""))
+  let content ← asBytes (fldD j "content" (Json.str ""))
+  let valid := (fldD j "valid" (Json.bool false)).getBool?.toOption.getD false
+  match ← strFld j "op" with
+  | "save" => return { op := .save kind sum content, valid := valid, content := content }
+  | "delete" => return { op := .delete kind sum, valid := false, content := [] }
+  | o => throw s!"unknown store op {o}"
+
+def jOptBytes06 : Option Bytes → Json
+  | some b => jBytes b
+  | none => Json.null
+
+/-- what the harness observes after a step, according to the map model -/
+def jStepExpect (H : Bytes → Bytes) (h : HistOp) (after : ObjStore) : Json :=
+  let got := after.get (h.op.key H)
+  let isSave := match h.op with
+    | .save .. => true
+    | .delete .. => false
+  Json.mkObj [("err", Json.bool false),
+    ("sum", if isSave && h.op.kind.byContent then jBytes (H h.content) else Json.null),
+    ("exists", Json.bool got.isSome),
+    ("stored", jOptBytes06 got),
+    ("typed", if isSave && h.valid then jOptBytes06 got else Json.null)]
+
+def jStoreState (s : ObjStore) : Json :=
+  let l := (s.map fun (k, v) => (bytesToHex k, bytesToHex v)).mergeSort (fun a b => decide (a.1 ≤ b.1))
+  Json.arr (l.map fun (k, v) => Json.arr #[Json.str k, Json.str v]).toArray
 
 def handleC06 (op : String) (input impl : Json) : Except String Json := do
   match op with
@@ -199,6 +246,49 @@ def handleC06 (op : String) (input impl : Json) : Except String Json := do
       (if (fldD v "reencoded2" Json.null).compress == stored then [] else ["profile-read-back-equals-written"]) ++
       (if (fldD v "rowsCount" Json.null).compress == (fldD v "rows" Json.null).compress &&
           (fldD v "columns" Json.null).compress == (fldD v "cols" Json.null).compress then [] else ["profile-describes-the-table"])
+    return reply Json.null true viol
+  | "savehist" =>
+    -- a history of Save*/Delete* on one store against the finite map of Model/ObjStore.lean
+    let ops ← (← arrFld input "ops").mapM histOpOf
+    -- the content hash is a parameter of the model: the harness computes meow of each operation's content
+    let digestsJ := fldD (implVal impl) "digests" (Json.arr #[])
+    let digests ← (← asArr digestsJ).mapM asBytes
+    let table := (ops.zip digests).map fun (h, d) => (h.content, d)
+    let H : Bytes → Bytes := fun c => ((table.find? (·.1 == c)).map (·.2)).getD []
+    let trace := storeTrace H [] (ops.map (·.op))
+    let final := storeRun H [] (ops.map (·.op))
+    let expSteps := (ops.zip trace).map fun (h, st) => jStepExpect H h st
+    let mj := jRes id (.ok (Json.mkObj [("steps", Json.arr expSteps.toArray), ("state", jStoreState final), ("digests", digestsJ)]))
+    if resClass impl == "panic" then return reply mj false ["no-panic"]
+    if resClass impl != "ok" then return reply mj false ["unexpected-error"]
+    let v := implVal impl
+    let steps ← arrFld v "steps"
+    let same (a b : Json) (k : String) : Bool := (fldD a k Json.null).compress == (fldD b k Json.null).compress
+    let stepViol : List String := ((ops.zip expSteps).zip steps).flatMap fun ((h, e), o) =>
+      (if same o e "err" then [] else ["store-operation-succeeds"]) ++
+      (match h.op with
+       | .save .. =>
+         (if same o e "sum" then [] else ["save-returns-the-hash-of-the-content"]) ++
+         (if same o e "stored" && same o e "exists" then [] else ["what-was-saved-reads-back-whatever-the-key-held"]) ++
+         (if same o e "typed" then [] else ["saved-object-reads-back-and-re-encodes-to-what-was-written"])
+       | .delete .. =>
+         (if same o e "stored" && same o e "exists" then [] else ["delete-unbinds-the-key"]))
+    let viol := stepViol.eraseDups ++
+      (if steps.length == ops.length && digests.length == ops.length then [] else ["one-observation-per-operation"]) ++
+      (if same v (implVal mj) "state" then [] else ["store-holds-the-last-write-of-each-key-and-nothing-else"])
+    return reply mj (sameRes impl mj) viol
+  | "refresh" =>
+    -- table index / profile recomputed over an existing state; reference: the same refresh onto absent keys
+    if resClass impl == "panic" then return reply Json.null false ["no-panic"]
+    if resClass impl != "ok" then return reply Json.null false ["unexpected-error"]
+    let v := implVal impl
+    let same (a b : String) : Bool := (fldD v a Json.null).compress == (fldD v b (Json.str "?")).compress
+    let viol :=
+      (if same "gotProfile" "refProfile" && same "typedProfile" "refProfile" then []
+       else ["refreshed-profile-reads-back-as-written-whatever-the-key-held"]) ++
+      (if same "gotIndex" "refIndex" && same "typedIndex" "refIndex" then []
+       else ["refreshed-table-index-reads-back-as-written-whatever-the-key-held"]) ++
+      (if same "restAfter" "restBefore" then [] else ["refresh-leaves-the-other-objects-as-they-were"])
     return reply Json.null true viol
   | "save" =>
     let kind ← strFld input "kind"
